@@ -193,6 +193,8 @@ func newWorld(thorough bool) *world {
 		wc = append(wc, top)
 		w.roots["hamt256"] = w.dir("hamt256", wn, wc)
 		w.roots["fileF"] = fF
+		w.roots["fileG"] = w.file(pattern(1000, 0x42), 256, 2, true, false) // 4 leaves of 256 bytes, 3 levels
+		w.roots["fileH"] = w.file(pattern(1000, 0x43), 100, 3, false, true) // 10 dag-pb leaves, trickle
 	}
 	for _, r := range w.roots {
 		w.closure(r)
@@ -594,7 +596,7 @@ func ranges(t *node, thorough bool) []string {
 
 func body(r *eng.Run) {
 	th := r.Thorough()
-	r.Rule("for every path from 5 (thorough 7) roots to every entry of the trees (1-block raw and dag-pb files, 3-level balanced / trickle files, a file of 4 identical leaves, an empty file, a 37-byte fan-out-3 file, nested basic directories, a HAMT fan-out 8 with 12 (40) entries = 2-3 levels, thorough: HAMT fan-out 256 with 301 entries) x format raw | car x dag-scope {absent, block, entity, all} x entity-bytes {absent} + {from:*, from:to} over from,to in {0,1,3,size-1,size,size+5,-1,-2,-5,-size,-(size+5)} (+chunk boundaries) x dups {absent,y,n} x parameters in the query or in the Accept header; every CAR is decoded and replayed into an empty offline store; non-trivial = every request")
+	r.Rule("for every path from 5 (thorough 9) roots to every entry of the trees (1-block raw and dag-pb files, 3-level balanced / trickle files, a file of 4 identical leaves, an empty file, a 37-byte fan-out-3 file, nested basic directories, a HAMT fan-out 8 with 12 (40) entries = 2-3 levels, thorough: HAMT fan-out 256 with 301 entries) x format raw | car x dag-scope {absent, block, entity, all} x entity-bytes {absent} + {from:*, from:to} over from,to in {0,1,3,size-1,size,size+5,-1,-2,-5,-size,-(size+5)} (+chunk boundaries) x dups {absent,y,n} x parameters in the query or in the Accept header; every CAR is decoded and replayed into an empty offline store; non-trivial = every request")
 	r.Assume("go-car's reader decodes the CARv1 framing correctly (hashes are re-checked by the harness); uio.DagReader / uio.Directory / merkledag.Walk / the path resolver are used as the offline verifier")
 	r.Assume("negative entity-bytes offsets count from the end as in the specification's examples (-1024:* = last 1024 bytes, so to=-1 is the last byte)")
 	w := newWorld(th)
